@@ -259,6 +259,14 @@ def run(chk, ctx) -> None:
                 if isinstance(c, ast.Call) and isinstance(c.func, ast.Attribute) and c.func.attr == 'append' and c.args:
                     got = T.norm(c.args[0])
                     ok = got == T.spec(f'{f_name} - {s_name}')
+    # (the same collection spelt as a comprehension)
+    for comp in [n for n in ast.walk(plur.node) if isinstance(n, (ast.ListComp, ast.GeneratorExp)) and len(n.generators) == 1
+                 and isinstance(n.generators[0].target, ast.Tuple) and len(n.generators[0].target.elts) == 2 and not n.generators[0].ifs]:
+        it = T.norm(comp.generators[0].iter)
+        if it[0] == 'call' and it[1] == 'zip' and len(it[2]) == 2 and it[2][0] == ('self', 'starting_stacks') and got is None:
+            s_name, f_name = (e.id for e in comp.generators[0].target.elts)
+            got = T.norm(comp.elt, {s_name: ('name', s_name), f_name: ('name', f_name)})
+            ok = got == T.spec(f'{f_name} - {s_name}')
     from .helpers import no_format_specs
     no_format_specs(chk, ctx, 'C17.layout', [acpc, plur])
     # every logged operation is rendered exactly once, starting with the first: the cursor starts at 0, advances by one per
@@ -333,7 +341,11 @@ def run(chk, ctx) -> None:
     chk.ob('C17.gates', 'ACPCProtocolParser.__post_init__', setup_ok and order_ok, pi.loc if pi else pc.loc,
            'the parser configures a private copy of the game (copied first): cash-game mode and the protocol\'s automations')
     # the result field is the payoffs as they are (str of each number, joined by `|`): no rounding, no number formatting
-    rendered = bool(m.exprs(plur.node, "'|'.join(map(str, raw_payoffs))")) or bool(m.exprs(plur.node, "'|'.join(str(payoff) for payoff in raw_payoffs)"))
+    rendered = bool(m.exprs(plur.node, "'|'.join(map(str, raw_payoffs))")) or bool(m.exprs(plur.node, "'|'.join(str(payoff) for payoff in raw_payoffs)")) \
+        or any(isinstance(c, ast.Call) and isinstance(c.func, ast.Attribute) and c.func.attr == 'join' and isinstance(c.func.value, ast.Constant)
+               and c.func.value.value == '|' and len(c.args) == 1 and isinstance(c.args[0], ast.Call) and isinstance(c.args[0].func, ast.Name)
+               and c.args[0].func.id == 'map' and len(c.args[0].args) == 2 and isinstance(c.args[0].args[0], ast.Name) and c.args[0].args[0].id == 'str'
+               and isinstance(c.args[0].args[1], ast.ListComp) and 'starting_stacks' in ast.unparse(c.args[0].args[1]) for c in ast.walk(plur.node))
     chk.ob('C17.payoff', f'{plur.qualname}:rendering', rendered, plur.loc,
            'the payoff field is str() of each payoff joined by `|` (a format specification would round or switch to exponent notation)')
     chk.ob('C17.payoff', plur.qualname, ok, plur.loc,
